@@ -23,10 +23,10 @@ Definition C09_stmt_balanced_statement : Prop :=
 
 Theorem C09_error_leaves_clean_machine : forall v,
   (exists m, assoc_get (v_mems (match assoc_get (v_ctxs v) 0 with
-                                | Some c => fold_left (fun acc ch => delete_ctx 1000 acc (snd ch)) (c_children c) v
+                                | Some c => fold_left (fun acc ch => delete_ctx ctx_fuel acc (snd ch)) (c_children c) v
                                 | None => v end)) 0 = Some m) ->
   (exists c, assoc_get (v_ctxs (match assoc_get (v_ctxs v) 0 with
-                                | Some c => fold_left (fun acc ch => delete_ctx 1000 acc (snd ch)) (c_children c) v
+                                | Some c => fold_left (fun acc ch => delete_ctx ctx_fuel acc (snd ch)) (c_children c) v
                                 | None => v end)) 0 = Some c) ->
   clean_machine (reset_after_error v).
 Proof. exact reset_clean. Qed.
